@@ -288,6 +288,33 @@ def _raw_families(run, O, tok):
             for at in range(O.slot_count(kind, cs)):
                 yield "WT", O.root([inst(kind, co, cs, at=at, inner=wleaf, lf=plain)])
                 yield "WT", O.root([inst(kind, co, cs, at=at, inner=lambda: [O.R(tok()), wleaf()[0], O.R(tok())], lf=plain)])
+    # ---- function names that are near misses of the nine known names: one run, split over runs at every position,
+    #      carrying a script inside m:fName, in w:t form, alone and as an operand
+    def fn(name_nodes, pr=0, ip=0):
+        n = O.N("func", {"pr": pr}, [["fName", name_nodes], ["e", plain()]])
+        if ip:
+            n["o"]["ip"] = 1
+        return n
+
+    for name in O.NEAR_FUNCS + O.FUNCS:
+        near = name in O.NEAR_FUNCS
+        if near:
+            for pr in (0, 1):
+                for ip in (0, 1):
+                    yield "FN", O.root([fn([O.R(name, p=pr)], pr, ip)])
+            yield "FN", O.root([O.R(tok()), fn([O.R(name, w=1)]), fn([O.R(name, w=2)])], para=1)
+            yield "FN", O.root([O.N("f", {"pr": 0}, [["num", [fn([O.R(name)])]], ["den", [fn([O.R(name)]), O.R(tok())]]])])
+            yield "FN", O.root([fn([O.R(" " + name + " ", sp=1)])])
+        for cut in range(1, len(name)):
+            yield "FN", O.root([fn([O.R(name[:cut]), O.R(name[cut:], p=1)])])
+        if len(name) > 3:
+            yield "FN", O.root([fn([O.R(name[0]), O.R(name[1:-1]), O.R(name[-1])])])
+        yield "FN", O.root([fn([O.R(name), O.R(tok())])])
+        yield "FN", O.root([fn([O.R(tok()), O.R(name)])])
+        for sk in ("sSup", "sSub", "sSubSup"):
+            slots = [["e", [O.R(name)]]] + [[s_, [O.R("2")]] for s_ in O.SLOTS[sk][1:]]
+            yield "FN", O.root([fn([O.N(sk, {"pr": 0}, slots)])])
+            yield "FN", O.root([fn([O.N(sk, {"pr": 1}, [["e", [O.R(name[:2]), O.R(name[2:])]]] + [[s_, plain()] for s_ in O.SLOTS[sk][1:]])], pr=1)])
     # ---- every character- / enumeration-valued attribute the vocabulary has x every odd value (empty, blank, several
     #      characters, combining-only, spacing accent, non-BMP, LaTeX/XML specials, unknown words, attribute absent):
     #      alone, between runs, and as an operand.  No rendering is documented for them; totality, tokens, balance are.
@@ -694,6 +721,11 @@ def main(run):
             for ft in ("run:text-in-w:t-of-m:r", "run:text-in-w:r"):
                 if ft in a.features:
                     run.count("clause3_checked_with_" + ft)
+        if a.malformed == 0 and not a.unclaimed and ob.get("out") is not None and "func:name=near-miss" in a.features:
+            run.count("clause5_template_compared_with_near_miss_function_name")
+            for ft in ("func:name-split-over-runs", "func:name-with-script"):
+                if ft in a.features:
+                    run.count("clause5_template_compared_with_near_miss_" + ft)
         odd = [ft for ft in a.features if ft.startswith("odd:")]
         if odd and ob.get("out") is not None:
             run.count("odd_attribute_value_trees_converted")
@@ -776,6 +808,9 @@ def main(run):
     run.require("malformed_radical_trees", run.counters.get("malformed_radical_trees", 0), 300)
     for ft in ("run:text-in-w:t-of-m:r", "run:text-in-w:r"):
         run.require("clause3_checked_with_" + ft, run.counters.get("clause3_checked_with_" + ft, 0), 300)
+    run.require("clause5_template_compared_with_near_miss_function_name", run.counters.get("clause5_template_compared_with_near_miss_function_name", 0), 300)
+    for ft in ("func:name-split-over-runs", "func:name-with-script"):
+        run.require("clause5_template_compared_with_near_miss_" + ft, run.counters.get("clause5_template_compared_with_near_miss_" + ft, 0), 50)
     run.require("odd_attribute_value_trees_converted", run.counters.get("odd_attribute_value_trees_converted", 0), 1000)
     run.require("attributes_given_odd_values", len(odd_seen & {f"odd:{k}.{t}" for k, t, _ in O.ODD_ATTRS}), len(O.ODD_ATTRS))
     run.require("clause5_template_compared_with_empty_delimiter_value", run.counters.get("clause5_template_compared_with_empty_delimiter_value", 0), 100)
@@ -783,7 +818,7 @@ def main(run):
     for f in sorted(O.RISKY):
         run.require("risky:" + f, run.counters.get("risky:" + f, 0), 10)
     run.extras["bounded_exhaustive"] = {
-        "definition": "ODD: every character-/enumeration-valued attribute x every odd value (vlib.gen.omml.ODD_VALUES, attribute absent) alone / between runs / as operand; WT: run text in <m:r><w:t> / <w:r><w:t> at top level and as each operand of each element; E1: every element x every optional child/attribute combination, with and without interleaved property elements; "
+        "definition": "FN: function names that begin with / end with / contain / are a prefix of / differ in case from a known name, as one run, split at every position, with a script inside m:fName; ODD: every character-/enumeration-valued attribute x every odd value (vlib.gen.omml.ODD_VALUES, attribute absent) alone / between runs / as operand; WT: run text in <m:r><w:t> / <w:r><w:t> at top level and as each operand of each element; E1: every element x every optional child/attribute combination, with and without interleaved property elements; "
                       "E1-empty: every subset of operands empty; E2: depth 2 (quick: all variants x canonical both ways; thorough: all x one-factor both ways), "
                       "E2-width2: two items per operand; E3: depth 3 of canonical variants; MR/MR2: malformed radical x every continuation",
         "trees_per_family": dict(sorted(fam_counts.items())),
